@@ -2,21 +2,13 @@
 # Regenerates MANIFEST.json from the table below.
 import json, subprocess
 
-claimed = {
- "C01": ("ParseSourceCode and the 60+ functions it reaches (scanner, parser, diagnostics, line table) are under contract: no panic escapes (the deferred recover is modelled; the end-of-input assertion is the only exceptional exit and is converted to an error), every loop has a decreasing variant and the mutual recursion a lexicographic measure (remaining input, rank), so parsing terminates for every byte string; err == nil iff a tree with zero diagnostics is returned; every node constructor establishes non-nil operands / present lists / non-empty names-or-diagnostic, and a normal return has consumed the input up to the EndOfFile token.",
-         "Assumed: utf8.DecodeRune, fmt/strconv/strings/json/reflect contracts (listed in evidence); keyword table contents; lifting per-constructor postconditions to 'every node of the tree' is a meta-level structural induction (nodes are written only while fresh: frame obligations). Not decided: running time proportional to input length; stack depth."),
- "C02": ("The binary precedence table equals the ladder of the statement (spec function prec written from the statement); at every node construction site the local grammar-class inequalities are call-site obligations (left operand class >= 1+prec(op), right operand class >= 2+prec(op) for ladder operators; assignment/conditional/comma layers; prefix/typeof operands of class >= 12; postfix targets of class >= 13); member access and call parentheses are asserted to start on the line of their target; a prefix expression may start a list element (first(tok) ==> isStartOfExpression); a missing terminal always leaves a diagnostic.",
-         "Assumed: the token stream is what Scan's contract says; uniqueness of the tree determined by the local inequalities is a meta-level argument (DESIGN 4.2 M-PREC, M-TREE). List punctuation rules (trailing comma, spread position) are covered only by 'missing terminal => diagnostic'."),
- "C14": ("Scanner.Scan and every scanner helper are under contract: no panic for any byte string and any position, every loop terminates, tokens tile the input (startPos == previous pos, tokenPos <= pos, progress unless EOF, EOF exactly at the end), range-table lookup is exactly membership, identifier classes are the ASCII sets plus the two ES5 tables; the same-line rule for '.', '!.' and '(' is asserted in the parser.",
-         "Assumed: utf8.DecodeRune contract; keyword table contents (KeywordFromString trusted until init is under contract); in-source ES5 tables are the ES5 tables; scanner used with a nil callback or the parser's callback. Not yet under contract: the longest-match operator table as a functional postcondition. Not decided: 'spacing never changes the parse' (relational)."),
- "C15": ("Every parse function ensures end(result) == start of the next token and pos(result) == start of its first token (or of its left operand); constructors require children in source order inside the node; diagnostics have non-negative start/length (object invariant, fields written only by CreateFileDiagnostic); ComputeLineStarts returns a strictly ascending table starting at 0 inside the text, BinarySearch and PositionFromOffsetWithCache locate the line with lineStarts[Line] <= offset < lineStarts[Line+1] and Column == offset - lineStarts[Line].",
-         "Not yet under contract: which byte positions are line starts (the six line-break forms), the text of the returned error, start+length <= len(text) for diagnostics. Not decided: re-parsing the text of a sub-expression (relational)."),
-}
+import os
+exec(open(os.path.join(os.path.dirname(os.path.abspath(__file__)), 'claims.py')).read())
 na = {}
 props = [json.loads(l) for l in open('/verif/properties.jsonl')]
 for p in props:
     if p['id'] not in claimed:
-        na[p['id']] = "not yet under contract in this revision of /verif (work in progress; see DESIGN.md section 5 for the plan)"
+        na[p['id']] = not_claimed.get(p['id'], "not yet under contract in this revision of /verif (work in progress; see DESIGN.md section 5 for the plan)")
 
 hook_commits = subprocess.run(['git','-C','/repo','log','--format=%H %s'],capture_output=True,text=True).stdout.splitlines()
 hooks = [l.split()[0] for l in hook_commits if 'verif hook' in l]
